@@ -91,6 +91,7 @@ theorem actionEffects_deltas (s : State) (signer : String) (pos : Nat) (act : Ac
     rw [h1]
     cases hh : hasLeading denom chan <;> by_cases ha : denom = a <;>
       simp [hh, ha, deltas_cons, deltas_nil, delta] <;> omega
+  | ibcRelayBad => simp [actionEffects, mintBurn, deltas_cons, deltas_nil, delta]
   | pairsAdd names => simp [actionEffects, mintBurn, deltas_map_addPair]
   | pairsDel names => simp [actionEffects, mintBurn, deltas_map_delPair]
   | marketsChange kind ms => simp [actionEffects, mintBurn, deltas_cons, deltas_nil, delta]
@@ -277,6 +278,7 @@ theorem applyEffect_nonce (s s' : State) (e : Effect) (h : applyEffect s e = som
     s'.nonce = s.nonce := by
   cases e <;> simp only [applyEffect] at h
   all_goals first
+    | (cases h; done)
     | (injection h with h; subst h; first | rfl | (unfold updBridge; split <;> rfl) | (split <;> rfl))
     | (split at h
        · injection h with h; subst h; rfl
